@@ -1,2 +1,161 @@
-/- driver stub for C08: replaced when the model exists -/
-def main : IO Unit := pure ()
+/- driver for C08: network layer headers and messages (Model.Npci)
+
+   ops  enc  {h, data}   NPDU.encode            → {hex, ctl}
+        dec  {hex}       NPDU.decode            → {h, data}
+        menc {h, m}      msg.encode + NPDU.encode → {hex}
+        mdec {hex}       NPDU.decode + npdu_types dispatch + msg.decode → {kind, h, m|data}
+        benc {m}         message body only      → {hex}
+        bdec {code, hex} message body only      → {m}
+   address  null | ["rs",net,hex] | ["rb",net] | ["gb"] | ["ls",hex] | ["lb"] | ["null"]
+   message  [code, params…]  (code = messageType)
+-/
+import BacVerif.Drv.Common
+import BacVerif.Model.Npci
+open Lean BacVerif BacVerif.Drv BacVerif.Npci
+
+def jAddr : Addr → Json
+  | .null => Json.arr #["null"]
+  | .localBroadcast => Json.arr #["lb"]
+  | .localStation mac => Json.arr #["ls", jHex mac]
+  | .remoteBroadcast net => Json.arr #["rb", Json.num net]
+  | .remoteStation net mac => Json.arr #["rs", Json.num net, jHex mac]
+  | .globalBroadcast => Json.arr #["gb"]
+
+def jAddrOpt : Option Addr → Json
+  | none => Json.null
+  | some a => jAddr a
+
+def hexOf (j : Json) : R Bytes := do
+  match ofHex? (← j.getStr?) with
+  | some b => pure b
+  | none => throw "bad hex"
+
+def addrOfJson (j : Json) : R Addr := do
+  let a ← j.getArr?
+  if a.size = 0 then throw "addr: empty"
+  match ← a[0]!.getStr? with
+  | "null" => pure .null
+  | "lb" => pure .localBroadcast
+  | "gb" => pure .globalBroadcast
+  | "ls" => pure (.localStation (← hexOf a[1]!))
+  | "rb" => pure (.remoteBroadcast (← a[1]!.getNat?))
+  | "rs" => pure (.remoteStation (← a[1]!.getNat?) (← hexOf a[2]!))
+  | k => throw s!"addr: bad kind {k}"
+
+def addrOptOfJson (j : Json) (k : String) : R (Option Addr) :=
+  match fldOpt j k with
+  | none => pure none
+  | some v => do pure (some (← addrOfJson v))
+
+def npciOfJson (j : Json) : R Npci := do
+  pure { version := fldNatD j "ver" 1, control := 0,
+         expectingReply := (← fldBool j "er"), priority := (← fldNat j "pri"),
+         dadr := (← addrOptOfJson j "dadr"), sadr := (← addrOptOfJson j "sadr"),
+         hopCount := (← fldOptNat j "hop"), netMessage := (← fldOptNat j "msg"),
+         vendorId := (← fldOptNat j "vid") }
+
+def jNpci (h : Npci) : Json :=
+  Json.mkObj [("ver", Json.num h.version), ("ctl", Json.num h.control),
+    ("er", Json.bool h.expectingReply), ("pri", Json.num h.priority),
+    ("dadr", jAddrOpt h.dadr), ("sadr", jAddrOpt h.sadr),
+    ("hop", jNatOpt h.hopCount), ("msg", jNatOpt h.netMessage), ("vid", jNatOpt h.vendorId)]
+
+def jNats (ns : List Nat) : Json := Json.arr (ns.map fun (n : Nat) => (Json.num n : Json)).toArray
+
+def jRtes (es : List Rte) : Json :=
+  Json.arr (es.map fun e => Json.arr #[Json.num e.dnet, Json.num e.portId, jHex e.portInfo]).toArray
+
+def jMsg (m : NetMsg) : Json :=
+  let c : Json := Json.num m.kind.code
+  match m with
+  | .whoIsRouterToNetwork n => Json.arr #[c, jNatOpt n]
+  | .iAmRouterToNetwork ns => Json.arr #[c, jNats ns]
+  | .iCouldBeRouterToNetwork a b => Json.arr #[c, Json.num a, Json.num b]
+  | .rejectMessageToNetwork a b => Json.arr #[c, Json.num a, Json.num b]
+  | .routerBusyToNetwork ns => Json.arr #[c, jNats ns]
+  | .routerAvailableToNetwork ns => Json.arr #[c, jNats ns]
+  | .initializeRoutingTable t => Json.arr #[c, jRtes t]
+  | .initializeRoutingTableAck t => Json.arr #[c, jRtes t]
+  | .establishConnectionToNetwork a b => Json.arr #[c, Json.num a, Json.num b]
+  | .disconnectConnectionToNetwork a => Json.arr #[c, Json.num a]
+  | .whatIsNetworkNumber => Json.arr #[c]
+  | .networkNumberIs a b => Json.arr #[c, Json.num a, Json.num b]
+
+def natsOfJson (j : Json) : R (List Nat) := do (← j.getArr?).toList.mapM (·.getNat?)
+
+def rtesOfJson (j : Json) : R (List Rte) := do
+  (← j.getArr?).toList.mapM fun e => do
+    let a ← e.getArr?
+    if a.size ≠ 3 then throw "rte: need 3 items"
+    pure { dnet := ← a[0]!.getNat?, portId := ← a[1]!.getNat?, portInfo := ← hexOf a[2]! }
+
+def msgOfJson (j : Json) : R NetMsg := do
+  let a ← j.getArr?
+  if a.size = 0 then throw "msg: empty"
+  let need (n : Nat) : R Unit := if a.size = n then pure () else throw "msg: wrong arity"
+  match kindOfCode (← a[0]!.getNat?) with
+  | none => throw "msg: unregistered code"
+  | some .whoIsRouterToNetwork => do
+      need 2
+      match a[1]! with
+      | Json.null => pure (.whoIsRouterToNetwork none)
+      | v => pure (.whoIsRouterToNetwork (some (← v.getNat?)))
+  | some .iAmRouterToNetwork => do need 2; pure (.iAmRouterToNetwork (← natsOfJson a[1]!))
+  | some .iCouldBeRouterToNetwork => do
+      need 3; pure (.iCouldBeRouterToNetwork (← a[1]!.getNat?) (← a[2]!.getNat?))
+  | some .rejectMessageToNetwork => do
+      need 3; pure (.rejectMessageToNetwork (← a[1]!.getNat?) (← a[2]!.getNat?))
+  | some .routerBusyToNetwork => do need 2; pure (.routerBusyToNetwork (← natsOfJson a[1]!))
+  | some .routerAvailableToNetwork => do need 2; pure (.routerAvailableToNetwork (← natsOfJson a[1]!))
+  | some .initializeRoutingTable => do need 2; pure (.initializeRoutingTable (← rtesOfJson a[1]!))
+  | some .initializeRoutingTableAck => do need 2; pure (.initializeRoutingTableAck (← rtesOfJson a[1]!))
+  | some .establishConnectionToNetwork => do
+      need 3; pure (.establishConnectionToNetwork (← a[1]!.getNat?) (← a[2]!.getNat?))
+  | some .disconnectConnectionToNetwork => do need 2; pure (.disconnectConnectionToNetwork (← a[1]!.getNat?))
+  | some .whatIsNetworkNumber => do need 1; pure .whatIsNetworkNumber
+  | some .networkNumberIs => do
+      need 3; pure (.networkNumberIs (← a[1]!.getNat?) (← a[2]!.getNat?))
+
+def handle (j : Json) : R Json := do
+  match ← fldStr j "op" with
+  | "enc" =>
+      let h ← npciOfJson (← fld j "h")
+      let data ← fldHex j "data"
+      match encodeNpdu h data with
+      | .error e => pure (jErr e)
+      | .ok bs => pure (jOk [("hex", jHex bs), ("ctl", Json.num (controlOctet h))])
+  | "dec" =>
+      let bs ← fldHex j "hex"
+      match decodeNpdu bs with
+      | .error e => pure (jErr e)
+      | .ok (h, data) => pure (jOk [("h", jNpci h), ("data", jHex data)])
+  | "menc" =>
+      let h ← npciOfJson (← fld j "h")
+      let m ← msgOfJson (← fld j "m")
+      match encodeMessage h m with
+      | .error e => pure (jErr e)
+      | .ok bs => pure (jOk [("hex", jHex bs)])
+  | "mdec" =>
+      let bs ← fldHex j "hex"
+      match decodeMessage bs with
+      | .error e => pure (jErr e)
+      | .ok (.apdu h data) => pure (jOk [("kind", "apdu"), ("h", jNpci h), ("data", jHex data)])
+      | .ok (.unknownMessage h data) =>
+          pure (jOk [("kind", "unknown"), ("h", jNpci h), ("data", jHex data)])
+      | .ok (.message h m) => pure (jOk [("kind", "msg"), ("h", jNpci h), ("m", jMsg m)])
+  | "benc" =>
+      let m ← msgOfJson (← fld j "m")
+      match encodeBody m with
+      | .error e => pure (jErr e)
+      | .ok bs => pure (jOk [("hex", jHex bs)])
+  | "bdec" =>
+      let bs ← fldHex j "hex"
+      match kindOfCode (← fldNat j "code") with
+      | none => pure (Json.mkObj [("r", "unregistered")])
+      | some k =>
+          match decodeBody k bs with
+          | .error e => pure (jErr e)
+          | .ok m => pure (jOk [("m", jMsg m)])
+  | op => throw s!"unknown op {op}"
+
+def main : IO Unit := loop handle
